@@ -498,7 +498,7 @@ def project(job, raw):
                      "solve_end": "end"}[ev["e"]],
                "it": ev["it"], "k": ev.get("k", 0), "vok": vok, "v": v,
                "cok": False, "c": 0, "inf": False, "gok": False, "g": 0,
-               "perm": [], "permref": [], "pol": [], "polok": True, "pick": [], "hidx": ev.get("hidx", 0),
+               "perm": [], "pinv": [], "permref": [], "pol": [], "polok": True, "pick": [], "hidx": ev.get("hidx", 0),
                "nchanged": ev.get("n_changed", 0), "evals": [], "polidx": [],
                "retok": bool(ev.get("retok", True)), "vhok": bool(ev.get("vhok", True)),
                "f64": ev.get("dtype", "float64") == "float64"}
@@ -513,6 +513,12 @@ def project(job, raw):
             rec["gok"], rec["g"] = g is not None, g or 0
         if ev["e"] == "sweep" and kind == "SAVI":
             rec["perm"] = [p + 1 for p in ev["perm"]] if ev.get("perm") is not None else list(range(1, ns + 1))
+            # the inverse (position of every state) - proposed here, verified by the specification in one pass
+            inv = [0] * ns
+            if sorted(rec["perm"]) == list(range(1, ns + 1)):
+                for pos_, st_ in enumerate(rec["perm"]):
+                    inv[st_ - 1] = pos_ + 1
+            rec["pinv"] = inv
         if ev.get("policy") is not None:
             sets = policy_sets(ev["policy"], avecs, adiv, aoff)
             if len(sets) != ns:
@@ -638,10 +644,70 @@ def soft_pvi(job):
     return {"soft": True, "gammaisone": gamma == 1.0, "period": p, "sweeps": sweeps, "gamma": gamma, "tag": job.get("tag")}
 
 
+def run_group(jobs):
+    """Several solvers of ONE process solve at the same time, each in its own thread (the interpreter is told to switch
+    threads as often as it can).  One recorder per solver object: every hook event carries the solver it belongs to."""
+    import threading
+    recs, solvers, raws = {}, [], []
+    router_lock = threading.Lock()
+
+    def router(seq, event, f):
+        s_ = f.get("solver")
+        with router_lock:
+            rec = recs.get(id(s_))
+        if rec is not None:
+            rec(seq, event, f)
+
+    _verif.clear_sinks()
+    _verif.add_sink(router)
+    for job in jobs:
+        solver = build_solver(job)
+        recs[id(solver)] = Recorder()
+        solvers.append(solver)
+    old = sys.getswitchinterval()
+    sys.setswitchinterval(1e-6)
+    errors = [None] * len(jobs)
+    results = [[] for _ in jobs]
+
+    def work(i):
+        try:
+            for k in jobs[i]["calls"]:
+                st = solvers[i].solve(max_iterations=k)
+                results[i].append(st)
+                attach_returned(recs[id(solvers[i])].events, st, solvers[i])
+        except Exception as ex:
+            errors[i] = f"{type(ex).__name__}: {str(ex)[:200]}"
+
+    starts = [np.array(s_.values) for s_ in solvers]
+    gains = [float(getattr(s_, "gain", 0.0)) for s_ in solvers]
+    threads = [threading.Thread(target=work, args=(i,)) for i in range(len(jobs))]
+    for t in threads:
+        t.start()
+    for t in threads:
+        t.join()
+    sys.setswitchinterval(old)
+    _verif.clear_sinks()
+    for i, (job, solver) in enumerate(zip(jobs, solvers)):
+        bp = solver.batch_processor
+        raws.append({"events": recs[id(solver)].events, "start": starts[i], "gain0": gains[i],
+                     "layout": {"nd": int(bp.n_devices), "nb": int(bp.n_batches), "bs": int(bp.batch_size), "pad": int(bp.n_pad)},
+                     "error": errors[i], "start_policy": None,
+                     "out_len": [int(np.asarray(r.values).shape[0]) for r in results[i]], "injected": False})
+    return raws
+
+
 def main():
     req = json.load(sys.stdin)
     out = []
     for job in req["jobs"]:
+        if job.get("group"):
+            try:
+                raws = run_group(job["group"])
+                out.append([project(j, raw) for j, raw in zip(job["group"], raws)])
+            except Exception:
+                out.append([{"skip": "worker exception", "trace": traceback.format_exc()[-1500:], "tag": j.get("tag")}
+                            for j in job["group"]])
+            continue
         if job.get("soft"):
             out.append([soft_pvi(job)])
             continue
